@@ -1,5 +1,1257 @@
-//! Sim A - stripe store (placeholder until implemented).
-use crate::common::Ctx;
+//! Sim A - an erasure-coded stripe store under network, node and disk faults.
+//!
+//! Discrete-event simulation (simulated clock only). Writers, storage nodes, readers, network, disks
+//! are stubs; every codec object is the real crate, long-lived across stripes, on a simulated machine
+//! with its own engine, CPU mask and poison.
+
+use std::cmp::Reverse;
+use std::collections::{BTreeMap, BTreeSet, BinaryHeap, VecDeque};
+
+use reed_solomon_simd::rate::{DecoderWork, EncoderWork};
+use reed_solomon_simd::Error;
+use simcore::envelope::{self, Family};
+use simcore::prng::Prng;
 use simcore::Chooser;
-pub fn run_store(_ch: &mut Chooser, _ctx: &mut Ctx) {}
-pub fn run_corner(_ch: &mut Chooser, _ctx: &mut Ctx) {}
+
+use crate::codec::*;
+use crate::common::*;
+use crate::ev;
+use crate::oracles::*;
+use crate::simb::{gen_engine, lockstep_check, report_panic, verdict_props};
+
+// ======================================================================
+// World
+
+#[derive(Clone, Copy, Debug, PartialEq, Eq)]
+enum Pref {
+    Rs,
+    Default,
+    Dedicated,
+}
+
+struct Machine {
+    pref: Pref,
+    engine: EngineKind,
+    mask: u32,
+    poison_mode: u8,
+}
+
+impl Machine {
+    fn gen(ch: &mut Chooser) -> Self {
+        let pref = [Pref::Dedicated, Pref::Default, Pref::Rs][ch.weighted("node.pref", &[3, 3, 2])];
+        let engine = if pref == Pref::Rs { EngineKind::Default } else { gen_engine(ch) };
+        // CPU mask of this machine: bit0 avx2, bit1 ssse3 (only narrows real detection)
+        let mask = match ch.weighted("node.mask", &[4, 1, 1, 1]) {
+            0 => u32::MAX,
+            1 => !1u32,      // no avx2
+            2 => !2u32,      // no ssse3 (avx2 still wins)
+            _ => !3u32,      // neither: portable
+        };
+        Self { pref, engine, mask, poison_mode: ch.weighted("node.poison", &[1, 5, 1]) as u8 }
+    }
+    /// The codec kind this machine uses for a stripe of the given rate.
+    fn kind_for(&self, k: usize, r: usize, high: bool) -> Kind {
+        let default_ok = envelope::default_supported(k, r) && envelope::default_is_high(k, r) == high;
+        match self.pref {
+            Pref::Rs if default_ok => Kind { layer: Layer::Rs, engine: EngineKind::Default },
+            Pref::Default if default_ok => Kind { layer: Layer::Default, engine: self.engine },
+            _ => Kind { layer: Layer::dedicated(high), engine: self.engine },
+        }
+    }
+}
+
+struct Writer {
+    m: Machine,
+    obj: Option<(Kind, Box<dyn DynEncoder>)>,
+    pool: Vec<EncoderWork>,
+    rounds: u32,
+}
+
+struct Reader {
+    m: Machine,
+    obj: Option<(Kind, Box<dyn DynDecoder>)>,
+    pool: Vec<DecoderWork>,
+    rounds: u32,
+    busy: Option<usize>,
+    queue: VecDeque<usize>,
+    partitioned: BTreeSet<usize>,
+}
+
+#[derive(Clone)]
+struct Stored {
+    index_field: usize,
+    data: Vec<u8>,
+    checksum: u64,
+    synced: bool,
+}
+
+struct Node {
+    up: bool,
+    disk: BTreeMap<(usize, bool, usize), Stored>,
+}
+
+struct StripeRec {
+    high: bool,
+    k: usize,
+    r: usize,
+    b: usize,
+    originals: Vec<Vec<u8>>,
+    recovery: Vec<Vec<u8>>,
+    put_done: bool,
+}
+
+fn checksum(is_rec: bool, data: &[u8]) -> u64 {
+    let mut h = simcore::prng::LogHash::default();
+    h.feed_u64(u64::from(is_rec));
+    h.feed_bytes(data);
+    h.0 ^ h.1.rotate_left(17)
+}
+
+#[derive(Clone, Debug)]
+struct Delivered {
+    is_rec: bool,
+    true_index: usize,
+    index_field: usize,
+    data: Vec<u8>,
+    checksum: u64,
+}
+
+#[derive(Clone, Copy, PartialEq, Eq, Debug)]
+enum Policy {
+    Asap,
+    Stragglers,
+    Eager,
+}
+
+struct Get {
+    stripe: usize,
+    reader: usize,
+    policy: Policy,
+    given_o: Vec<bool>,
+    given_r: Vec<bool>,
+    n_o: usize,
+    n_r: usize,
+    adds: Vec<Add>,
+    raw: Vec<Delivered>,
+    failed_round: bool,
+    started: bool,
+    done: bool,
+    ok: bool,
+    attempts: u32,
+    final_phase: bool,
+    inversions: u64,
+    last_pos: usize,
+}
+
+enum Event {
+    Put(usize),
+    StoreArrive { node: usize, stripe: usize, is_rec: bool, idx: usize },
+    Crash(usize),
+    Restart(usize),
+    GetStart(usize),
+    ShardArrive { get: usize, shard: Delivered },
+    Deadline { get: usize, attempt: u32 },
+    Partition { reader: usize },
+    Heal { reader: usize },
+}
+
+struct Knobs {
+    p_loss: u64,
+    p_dup: u64,
+    jitter: u64,
+    p_crash: u64,
+    p_partition: u64,
+    p_rot: u64,
+    p_torn: u64,
+    p_misdirect: u64,
+    verify_len: bool,
+    verify_index: bool,
+    p_sync: u64,
+}
+
+struct World {
+    now: u64,
+    seq: u64,
+    queue: BinaryHeap<Reverse<(u64, u64)>>,
+    events: BTreeMap<u64, Event>,
+    net: Prng,
+    knobs: Knobs,
+    faults_on: bool,
+    nodes: Vec<Node>,
+    writers: Vec<Writer>,
+    readers: Vec<Reader>,
+    stripes: Vec<StripeRec>,
+    gets: Vec<Get>,
+}
+
+impl World {
+    fn at(&mut self, delay: u64, e: Event) {
+        self.seq += 1;
+        self.queue.push(Reverse((self.now + delay, self.seq)));
+        self.events.insert(self.seq, e);
+    }
+    fn latency(&mut self) -> u64 {
+        1000 + if self.knobs.jitter > 0 { self.net.below(self.knobs.jitter) } else { 0 }
+    }
+    fn roll(&mut self, pct: u64) -> bool {
+        self.faults_on && pct > 0 && self.net.below(100) < pct
+    }
+}
+
+// ======================================================================
+// Run
+
+pub fn run_store(ch: &mut Chooser, ctx: &mut Ctx) {
+    let pick = |ch: &mut Chooser, site: &'static str, vals: &[u64]| vals[ch.pick_usize(site, vals.len())];
+    let knobs = Knobs {
+        p_loss: pick(ch, "knob.loss", &[0, 2, 10, 30]),
+        p_dup: pick(ch, "knob.dup", &[0, 5, 25]),
+        jitter: pick(ch, "knob.jitter", &[0, 500, 20_000, 200_000]),
+        p_crash: pick(ch, "knob.crash", &[0, 0, 10, 40]),
+        p_partition: pick(ch, "knob.partition", &[0, 0, 30]),
+        p_rot: pick(ch, "knob.rot", &[0, 0, 5]),
+        p_torn: pick(ch, "knob.torn", &[0, 0, 8]),
+        p_misdirect: pick(ch, "knob.misdirect", &[0, 0, 8]),
+        verify_len: !ch.chance("knob.buggify_len", 1, 2),
+        verify_index: !ch.chance("knob.buggify_index", 1, 2),
+        p_sync: pick(ch, "knob.sync", &[100, 90, 50]),
+    };
+    let n_nodes = 3 + ch.pick_usize("world.nodes", 10);
+    let n_writers = 1 + ch.pick_usize("world.writers", 3);
+    let n_readers = 1 + ch.pick_usize("world.readers", 3);
+    let mut w = World {
+        now: 0,
+        seq: 0,
+        queue: BinaryHeap::new(),
+        events: BTreeMap::new(),
+        net: Prng::new(ch.seed64("world.netseed")),
+        knobs,
+        faults_on: true,
+        nodes: (0..n_nodes).map(|_| Node { up: true, disk: BTreeMap::new() }).collect(),
+        writers: (0..n_writers).map(|_| Writer { m: Machine::gen(ch), obj: None, pool: Vec::new(), rounds: 0 }).collect(),
+        readers: (0..n_readers)
+            .map(|_| Reader { m: Machine::gen(ch), obj: None, pool: Vec::new(), rounds: 0, busy: None, queue: VecDeque::new(), partitioned: BTreeSet::new() })
+            .collect(),
+        stripes: Vec::new(),
+        gets: Vec::new(),
+    };
+    ctx.arm_poison(ch.seed64("poison.seed"), 1);
+    ev!(ctx, "store: {n_nodes} nodes, {n_writers} writers, {n_readers} readers; loss {}% dup {}% jitter {}us crash {}% partition {}% rot {}% torn {}% misdirect {}% verify_len={} verify_index={} sync {}%",
+        w.knobs.p_loss, w.knobs.p_dup, w.knobs.jitter, w.knobs.p_crash, w.knobs.p_partition, w.knobs.p_rot, w.knobs.p_torn, w.knobs.p_misdirect, w.knobs.verify_len, w.knobs.verify_index, w.knobs.p_sync);
+    for (i, m) in w.writers.iter().map(|x| &x.m).chain(w.readers.iter().map(|x| &x.m)).enumerate() {
+        ev!(ctx, "  machine {i}: {:?} engine {} cpu mask {:#x} poison {}", m.pref, m.engine.name(), m.mask & 3, m.poison_mode);
+    }
+
+    // workload: PUTs then GETs at seeded times
+    let n_stripes = 1 + ch.pick_usize("work.stripes", 5);
+    for s in 0..n_stripes {
+        let fam = [Family::Default, Family::High, Family::Low][ch.weighted("stripe.fam", &[2, 1, 1])];
+        let scale = ch.weighted("stripe.scale", &[80, 18, 2]) as u8;
+        let (k, r) = gen_counts(ch, fam, scale);
+        let high = envelope::effective_high(fam, k, r);
+        let b = gen_bytes(ch, if scale == 2 { 66 } else { 258 });
+        let data_seed = ch.seed64("stripe.data");
+        let originals: Vec<Vec<u8>> = (0..k).map(|i| gen_shard(data_seed, 0, i, b)).collect();
+        w.stripes.push(StripeRec { high, k, r, b, originals, recovery: Vec::new(), put_done: false });
+        let t_put = ch.pick("work.put_at", 400_000);
+        w.at(t_put, Event::Put(s));
+        let n_gets = 1 + ch.pick_usize("work.gets", 3);
+        for _ in 0..n_gets {
+            let reader = ch.pick_usize("work.reader", n_readers);
+            let policy = [Policy::Asap, Policy::Stragglers, Policy::Eager][ch.weighted("work.policy", &[3, 2, 2])];
+            let g = w.gets.len();
+            w.gets.push(new_get(&w.stripes[s], s, reader, policy, false));
+            let t_get = t_put + 1000 + ch.pick("work.get_after", 600_000);
+            w.at(t_get, Event::GetStart(g));
+        }
+        if w.knobs.p_crash > 0 && ch.chance("work.crash", w.knobs.p_crash, 100) {
+            let node = ch.pick_usize("work.crash_node", n_nodes);
+            let t = t_put + ch.pick("work.crash_at", 300_000);
+            w.at(t, Event::Crash(node));
+            w.at(t + 50_000 + ch.pick("work.restart_after", 500_000), Event::Restart(node));
+        }
+        if w.knobs.p_partition > 0 && ch.chance("work.partition", w.knobs.p_partition, 100) {
+            let reader = ch.pick_usize("work.part_reader", n_readers);
+            let t = t_put + ch.pick("work.part_at", 600_000);
+            w.at(t, Event::Partition { reader });
+            w.at(t + 20_000 + ch.pick("work.heal_after", 400_000), Event::Heal { reader });
+        }
+    }
+
+    // main phase
+    let budget = 30_000 + 40 * w.stripes.iter().map(|s| s.k + s.r).sum::<usize>();
+    if pump(ch, ctx, &mut w, budget) {
+        return;
+    }
+
+    // quiesce: faults stop, everything heals, then every stripe must be readable if >= k shards are durable
+    w.faults_on = false;
+    for n in &mut w.nodes {
+        n.up = true;
+    }
+    for r in &mut w.readers {
+        r.partitioned.clear();
+    }
+    ev!(ctx, "t={} quiesce: faults off, all nodes up, partitions healed", w.now);
+    let mut finals = Vec::new();
+    for s in 0..w.stripes.len() {
+        if !w.stripes[s].put_done {
+            continue;
+        }
+        let reader = ch.pick_usize("final.reader", n_readers);
+        let g = w.gets.len();
+        w.gets.push(new_get(&w.stripes[s], s, reader, Policy::Asap, true));
+        w.at(1000, Event::GetStart(g));
+        finals.push(g);
+    }
+    let t_quiesce = w.now;
+    if pump(ch, ctx, &mut w, budget) {
+        return;
+    }
+    for g in finals {
+        let s = w.gets[g].stripe;
+        let st = &w.stripes[s];
+        // durable, intact, correctly labelled shards
+        let mut durable = 0usize;
+        for node in &w.nodes {
+            for ((stripe, is_rec, idx), sh) in &node.disk {
+                if *stripe == s && sh.index_field == *idx && sh.data.len() == st.b && sh.checksum == checksum(*is_rec, &sh.data) {
+                    durable += 1;
+                }
+            }
+        }
+        ctx.count("sim.final_gets");
+        if durable >= st.k {
+            ctx.count("probe.final_get_with_enough_durable");
+            if !w.gets[g].ok {
+                ctx.viol(
+                    &["C01"],
+                    "bounded-liveness",
+                    "liveness/final-get".into(),
+                    format!("after the last fault and a heal, stripe {s} ({},{},{}) has {durable} >= k durable shards but the GET did not complete within {} simulated us", st.k, st.r, st.b, w.now - t_quiesce),
+                    false,
+                );
+                return;
+            }
+        } else {
+            ctx.count("probe.final_get_unavailable");
+        }
+    }
+    ctx.count_n("sim.simulated_ms", w.now / 1000);
+    let inv: u64 = w.gets.iter().map(|g| g.inversions).sum();
+    ctx.count_n("fault.F3.inversions", inv);
+}
+
+fn new_get(st: &StripeRec, stripe: usize, reader: usize, policy: Policy, final_phase: bool) -> Get {
+    Get {
+        stripe,
+        reader,
+        policy,
+        given_o: vec![false; st.k],
+        given_r: vec![false; st.r],
+        n_o: 0,
+        n_r: 0,
+        adds: Vec::new(),
+        raw: Vec::new(),
+        failed_round: false,
+        started: false,
+        done: false,
+        ok: false,
+        attempts: 0,
+        final_phase,
+        inversions: 0,
+        last_pos: 0,
+    }
+}
+
+/// Processes events until the queue is empty or the step budget is used up. Returns `true` to stop the run.
+fn pump(ch: &mut Chooser, ctx: &mut Ctx, w: &mut World, max_steps: usize) -> bool {
+    let mut steps = 0;
+    while let Some(Reverse((t, seq))) = w.queue.pop() {
+        steps += 1;
+        if steps > max_steps {
+            // a harness bound, not a property: end the run without judging liveness
+            ctx.count("sim.step_budget_exhausted");
+            return true;
+        }
+        w.now = t;
+        let Some(e) = w.events.remove(&seq) else { continue };
+        ctx.count("sim.events");
+        let stop = match e {
+            Event::Put(s) => do_put(ch, ctx, w, s),
+            Event::StoreArrive { node, stripe, is_rec, idx } => {
+                store_arrive(ctx, w, node, stripe, is_rec, idx);
+                false
+            }
+            Event::Crash(n) => {
+                if w.nodes[n].up {
+                    let before = w.nodes[n].disk.len();
+                    w.nodes[n].disk.retain(|_, s| s.synced);
+                    w.nodes[n].up = false;
+                    let lost = before - w.nodes[n].disk.len();
+                    ctx.count("fault.F4.crashes");
+                    ctx.count_n("fault.F4.shards_lost_to_crash", lost as u64);
+                    ev!(ctx, "t={t} node {n} crashes, {lost} un-synced shards vanish");
+                }
+                false
+            }
+            Event::Restart(n) => {
+                w.nodes[n].up = true;
+                ev!(ctx, "t={t} node {n} restarts");
+                false
+            }
+            Event::Partition { reader } => {
+                let n = w.nodes.len();
+                let cut: BTreeSet<usize> = (0..n).filter(|_| w.net.below(2) == 0).collect();
+                ev!(ctx, "t={t} reader {reader} partitioned from nodes {cut:?}");
+                w.readers[reader].partitioned = cut;
+                ctx.count("fault.F5.partitions");
+                false
+            }
+            Event::Heal { reader } => {
+                w.readers[reader].partitioned.clear();
+                ev!(ctx, "t={t} reader {reader} partition heals");
+                false
+            }
+            Event::GetStart(g) => get_start(ch, ctx, w, g),
+            Event::ShardArrive { get, shard } => shard_arrive(ch, ctx, w, get, shard),
+            Event::Deadline { get, attempt } => deadline(ch, ctx, w, get, attempt),
+        };
+        ctx.hash.feed_u64(t ^ seq.rotate_left(40));
+        if stop || ctx.stop {
+            return true;
+        }
+    }
+    false
+}
+
+// ======================================================================
+// PUT
+
+fn writer_object(ctx: &mut Ctx, wr: &mut Writer, kind: Kind, cfg: (usize, usize, usize), reuse_choice: u64) -> Result<(), ()> {
+    let (k, r, b) = cfg;
+    ctx.cpu_mask = wr.m.mask;
+    ctx.poison_mode = wr.m.poison_mode;
+    // same kind: reset in place (or recycle through into_parts); other kind: recycle the working space
+    if let Some((cur, obj)) = &mut wr.obj {
+        if *cur == kind && reuse_choice % 3 != 2 {
+            let res = ctx.guarded(true, || obj.reset(k, r, b));
+            match res {
+                Ok(Ok(())) => {
+                    ctx.count("probe.writer_reset_reuse");
+                    return Ok(());
+                }
+                Ok(Err(e)) => {
+                    ctx.viol(&verdict_props("reset", false), "verdict", format!("verdict/reset/{}", err_name(&e)), format!("{}.reset{cfg:?} returned Err({e:?}) for a supported configuration", kind.name()), true);
+                    return Err(());
+                }
+                Err(msg) => {
+                    report_panic(ctx, &kind.name(), "reset", &format!("reset{cfg:?}"), false, &msg);
+                    return Err(());
+                }
+            }
+        }
+    }
+    if let Some((_, old)) = wr.obj.take() {
+        if let Ok(Some(work)) = ctx.guarded(false, || old.into_work()) {
+            wr.pool.push(work);
+        }
+    }
+    let work = if kind.layer == Layer::Rs { None } else { wr.pool.pop() };
+    if work.is_some() {
+        ctx.count("probe.work_changed_owner");
+    }
+    match ctx.guarded(true, || enc_new(kind, k, r, b, work)) {
+        Ok(Ok(o)) => {
+            wr.obj = Some((kind, o));
+            Ok(())
+        }
+        Ok(Err(e)) => {
+            ctx.viol(&["C06", "C08"], "verdict", format!("verdict/new/{}", err_name(&e)), format!("{}::new{cfg:?} returned Err({e:?}) for a supported configuration", kind.name()), true);
+            Err(())
+        }
+        Err(msg) => {
+            report_panic(ctx, &kind.name(), "new", &format!("new{cfg:?}"), false, &msg);
+            Err(())
+        }
+    }
+}
+
+/// Encodes the stripe on writer `wi` with its long-lived object. Returns the recovery shards.
+fn writer_encode(ctx: &mut Ctx, w: &mut World, wi: usize, s: usize, reuse_choice: u64, probe_seed: u64) -> Option<Vec<Vec<u8>>> {
+    let (k, r, b, high) = (w.stripes[s].k, w.stripes[s].r, w.stripes[s].b, w.stripes[s].high);
+    let kind = w.writers[wi].m.kind_for(k, r, high);
+    if writer_object(ctx, &mut w.writers[wi], kind, (k, r, b), reuse_choice).is_err() {
+        return None;
+    }
+    let originals = &w.stripes[s].originals;
+    let wr = &mut w.writers[wi];
+    let obj = &mut wr.obj.as_mut().unwrap().1;
+    let out = ctx.guarded(true, || -> Result<Result<Vec<Vec<u8>>, String>, Error> {
+        for o in originals {
+            obj.add(o)?;
+        }
+        let res = obj.encode()?;
+        Ok(probe_encoder_result(&res, r, b, probe_seed))
+    });
+    wr.rounds += 1;
+    if wr.rounds > 1 {
+        ctx.count("probe.round_on_reused_object");
+    }
+    match out {
+        Ok(Ok(Ok(v))) => {
+            if lockstep_check(ctx, kind, "PUT encode") {
+                return None;
+            }
+            Some(v)
+        }
+        Ok(Ok(Err(why))) => {
+            ctx.viol(&["C12"], "result-contract", "enc-result/store".into(), format!("{}({k},{r},{b}) EncoderResult: {why}", kind.name()), true);
+            None
+        }
+        Ok(Err(e)) => {
+            ctx.viol(&["C06", "C01"], "verdict", format!("verdict/store-encode/{}", err_name(&e)), format!("writer {wi} {}({k},{r},{b}): valid encode sequence returned Err({e:?})", kind.name()), true);
+            None
+        }
+        Err(msg) => {
+            report_panic(ctx, &kind.name(), "encode", &format!("PUT encode ({k},{r},{b})"), false, &msg);
+            None
+        }
+    }
+}
+
+fn do_put(ch: &mut Chooser, ctx: &mut Ctx, w: &mut World, s: usize) -> bool {
+    let (k, r, b, high) = (w.stripes[s].k, w.stripes[s].r, w.stripes[s].b, w.stripes[s].high);
+    let wi = ch.pick_usize("put.writer", w.writers.len());
+    let probe_seed = ch.seed64("probe.seed");
+    let reuse = ch.pick("put.reuse", 3);
+    ev!(ctx, "t={} PUT stripe {s}: ({k},{r},{b}) {} rate, writer {wi} as {}", w.now, if high { "high" } else { "low" }, w.writers[wi].m.kind_for(k, r, high).name());
+    ctx.distinct(&[0xA0, u64::from(high), envelope::np2(k).trailing_zeros() as u64, envelope::np2(r).trailing_zeros() as u64, (b % 64 != 0) as u64, (b / 64).min(4) as u64, w.writers[wi].m.engine as u64, w.writers[wi].m.pref as u64]);
+    let Some(recovery) = writer_encode(ctx, w, wi, s, reuse, probe_seed) else { return true };
+    ctx.count("sim.puts");
+    ctx.hash.feed_u64(digest(&recovery));
+    if b % 64 != 0 {
+        ctx.count("probe.partial_last_block");
+    }
+
+    // R1 (C02)
+    let (mism, compared) = check_r1(high, k, r, &w.stripes[s].originals, &recovery, probe_seed);
+    ctx.count_n("r1.symbols_compared", compared as u64);
+    if let Some(why) = mism {
+        let kind = w.writers[wi].m.kind_for(k, r, high);
+        let mut props = vec!["C02"];
+        if kind.layer.family() == Family::Default && envelope::supported(if high { Family::Low } else { Family::High }, k, r) && check_r1(!high, k, r, &w.stripes[s].originals, &recovery, probe_seed).0.is_none() {
+            props = vec!["C09"];
+        }
+        if w.writers[wi].rounds > 1 {
+            props.push("C05");
+        }
+        if ctx.viol(&props, "r1-code", "r1/store".into(), format!("writer {wi} {}({k},{r},{b}): {why}", kind.name()), false) {
+            return true;
+        }
+    }
+    // a second writer (another machine) encodes the same stripe: bytes must not depend on the machine (C03, C09, C14)
+    if w.writers.len() > 1 && ch.chance("put.second", 2, 3) {
+        let wj = (wi + 1 + ch.pick_usize("put.second_writer", w.writers.len() - 1)) % w.writers.len();
+        let reuse2 = ch.pick("put.reuse", 3);
+        let Some(rec2) = writer_encode(ctx, w, wj, s, reuse2, probe_seed) else { return true };
+        ctx.count("c03.cross_machine_puts");
+        if rec2 != recovery {
+            let (ka, kb) = (w.writers[wi].m.kind_for(k, r, high), w.writers[wj].m.kind_for(k, r, high));
+            let mut props = vec!["C03"];
+            if ka.layer != kb.layer {
+                props.push("C09");
+            }
+            if w.writers[wi].m.mask != w.writers[wj].m.mask {
+                props.push("C14");
+            }
+            if ctx.viol(&props, "cross-engine", format!("cross/store-encode/{}-{}", ka.engine.name(), kb.engine.name()), format!("stripe {s} ({k},{r},{b}): writer {wi} ({}, mask {:#x}) and writer {wj} ({}, mask {:#x}) produce different recovery bytes", ka.name(), w.writers[wi].m.mask & 3, kb.name(), w.writers[wj].m.mask & 3), false) {
+                return true;
+            }
+        }
+    }
+    // one-shot encode (C10) where the default rule picks this stripe's rate
+    if envelope::default_supported(k, r) && envelope::default_is_high(k, r) == high && ch.chance("put.oneshot", 1, 3) {
+        let originals = &w.stripes[s].originals;
+        match ctx.shadow(|| reed_solomon_simd::encode(k, r, originals)) {
+            Ok(Ok(v)) => {
+                ctx.count("c10.oneshot_encode_compared");
+                if v != recovery && ctx.viol(&["C10", "C09"], "oneshot-equals-streaming", "oneshot/encode/bytes".into(), format!("encode({k},{r},..) differs from the writer's streaming result"), false) {
+                    return true;
+                }
+            }
+            Ok(Err(e)) => {
+                if ctx.viol(&["C10", "C06"], "oneshot-equals-streaming", format!("oneshot/encode/{}", err_name(&e)), format!("encode({k},{r}, valid) returned Err({e:?})"), false) {
+                    return true;
+                }
+            }
+            Err(msg) => {
+                if report_panic(ctx, "encode()", "oneshot", "one-shot encode", false, &msg) {
+                    return true;
+                }
+            }
+        }
+    }
+    w.stripes[s].recovery = recovery;
+    w.stripes[s].put_done = true;
+
+    // ship the shards: shard j lives on node j mod S
+    let n = w.nodes.len();
+    for j in 0..k + r {
+        let (is_rec, idx) = if j < k { (false, j) } else { (true, j - k) };
+        let node = j % n;
+        if w.roll(w.knobs.p_loss) {
+            ctx.count("fault.F1.message_lost");
+            continue;
+        }
+        let lat = w.latency();
+        w.at(lat, Event::StoreArrive { node, stripe: s, is_rec, idx });
+        if w.roll(w.knobs.p_dup) {
+            let lat2 = w.latency();
+            w.at(lat + lat2, Event::StoreArrive { node, stripe: s, is_rec, idx });
+            ctx.count("fault.F2.store_message_duplicated");
+        }
+    }
+    false
+}
+
+fn store_arrive(ctx: &mut Ctx, w: &mut World, node: usize, stripe: usize, is_rec: bool, idx: usize) {
+    if !w.nodes[node].up {
+        ctx.count("fault.F4.write_to_down_node");
+        return;
+    }
+    let st = &w.stripes[stripe];
+    let mut data = if is_rec { st.recovery[idx].clone() } else { st.originals[idx].clone() };
+    let sum = checksum(is_rec, &data);
+    let mut index_field = idx;
+    let count = if is_rec { st.r } else { st.k };
+    if w.roll(w.knobs.p_rot) {
+        let at = w.net.below(data.len() as u64) as usize;
+        data[at] ^= 1 << w.net.below(8);
+        ctx.count("fault.F6.bit_rot");
+    } else if w.roll(w.knobs.p_torn) {
+        let newlen = match w.net.below(4) {
+            0 => 0,
+            1 => data.len() - 1,
+            2 => data.len() / 2,
+            _ => w.net.below(data.len() as u64) as usize,
+        };
+        data.truncate(newlen);
+        ctx.count("fault.F7.torn_write");
+    } else if w.roll(w.knobs.p_misdirect) {
+        index_field = match w.net.below(4) {
+            0 => count,
+            1 => usize::MAX,
+            2 => usize::MAX - w.net.below(70_000) as usize,
+            _ => w.net.below(count as u64) as usize,
+        };
+        ctx.count("fault.F8.misdirected_write");
+    }
+    let synced = !w.faults_on || w.net.below(100) < w.knobs.p_sync;
+    w.nodes[node].disk.insert((stripe, is_rec, idx), Stored { index_field, data, checksum: sum, synced });
+}
+
+// ======================================================================
+// GET
+
+fn request_shards(ctx: &mut Ctx, w: &mut World, g: usize) {
+    let (s, reader) = (w.gets[g].stripe, w.gets[g].reader);
+    let mut to_send = Vec::new();
+    for (ni, node) in w.nodes.iter().enumerate() {
+        if !node.up || w.readers[reader].partitioned.contains(&ni) {
+            continue;
+        }
+        for ((stripe, is_rec, idx), sh) in &node.disk {
+            if *stripe != s {
+                continue;
+            }
+            let already = if *is_rec { w.gets[g].given_r.get(*idx).copied().unwrap_or(false) } else { w.gets[g].given_o.get(*idx).copied().unwrap_or(false) };
+            if already && w.gets[g].attempts > 0 {
+                continue;
+            }
+            to_send.push(Delivered { is_rec: *is_rec, true_index: *idx, index_field: sh.index_field, data: sh.data.clone(), checksum: sh.checksum });
+        }
+    }
+    let mut sent = 0;
+    for d in to_send {
+        if w.roll(w.knobs.p_loss) {
+            ctx.count("fault.F1.message_lost");
+            continue;
+        }
+        let lat = 1000 + w.latency();
+        if w.roll(w.knobs.p_dup) {
+            let lat2 = w.latency();
+            w.at(lat + lat2, Event::ShardArrive { get: g, shard: d.clone() });
+            ctx.count("fault.F2.dup_delivered");
+        }
+        w.at(lat, Event::ShardArrive { get: g, shard: d });
+        sent += 1;
+    }
+    let attempt = w.gets[g].attempts;
+    let wait = 3000 + w.knobs.jitter * 2 + 10_000;
+    w.at(wait, Event::Deadline { get: g, attempt });
+    ev!(ctx, "t={} GET {g} (stripe {s}, reader {reader}, {:?}) attempt {attempt}: {sent} responses on their way", w.now, w.gets[g].policy);
+}
+
+fn get_start(ch: &mut Chooser, ctx: &mut Ctx, w: &mut World, g: usize) -> bool {
+    let (s, reader) = (w.gets[g].stripe, w.gets[g].reader);
+    if !w.stripes[s].put_done {
+        // PUT has not happened yet (or failed): nothing to read
+        w.gets[g].done = true;
+        return false;
+    }
+    if w.readers[reader].busy.is_some() {
+        w.readers[reader].queue.push_back(g);
+        return false;
+    }
+    w.readers[reader].busy = Some(g);
+    w.gets[g].started = true;
+    ctx.count("sim.gets");
+    // prepare the reader's long-lived decoder for this stripe
+    let (k, r, b, high) = (w.stripes[s].k, w.stripes[s].r, w.stripes[s].b, w.stripes[s].high);
+    let rd = &mut w.readers[reader];
+    let kind = rd.m.kind_for(k, r, high);
+    ctx.cpu_mask = rd.m.mask;
+    ctx.poison_mode = rd.m.poison_mode;
+    let reuse = ch.pick("get.reuse", 3);
+    let mut ready = false;
+    if let Some((cur, obj)) = &mut rd.obj {
+        if *cur == kind && reuse != 2 {
+            match ctx.guarded(true, || obj.reset(k, r, b)) {
+                Ok(Ok(())) => {
+                    ctx.count("probe.reader_reset_reuse");
+                    ready = true;
+                }
+                Ok(Err(e)) => {
+                    return ctx.viol(&verdict_props("reset", false), "verdict", format!("verdict/reset/{}", err_name(&e)), format!("{}.reset({k},{r},{b}) returned Err({e:?}) for a supported configuration", kind.name()), true);
+                }
+                Err(msg) => return report_panic(ctx, &kind.name(), "reset", &format!("reset({k},{r},{b})"), false, &msg),
+            }
+        }
+    }
+    if !ready {
+        if let Some((_, old)) = rd.obj.take() {
+            if let Ok(Some(work)) = ctx.guarded(false, || old.into_work()) {
+                rd.pool.push(work);
+            }
+        }
+        let work = if kind.layer == Layer::Rs { None } else { rd.pool.pop() };
+        if work.is_some() {
+            ctx.count("probe.work_changed_owner");
+        }
+        match ctx.guarded(true, || dec_new(kind, k, r, b, work)) {
+            Ok(Ok(o)) => rd.obj = Some((kind, o)),
+            Ok(Err(e)) => {
+                return ctx.viol(&["C06", "C08"], "verdict", format!("verdict/new/{}", err_name(&e)), format!("{}::new({k},{r},{b}) returned Err({e:?}) for a supported configuration", kind.name()), true);
+            }
+            Err(msg) => return report_panic(ctx, &kind.name(), "new", &format!("new({k},{r},{b})"), false, &msg),
+        }
+    }
+    ctx.distinct(&[0xA1, kind.layer as u64, kind.engine as u64, w.gets[g].policy as u64, u64::from(high), (rd.m.mask & 3) as u64]);
+    request_shards(ctx, w, g);
+    false
+}
+
+fn finish_get(w: &mut World, g: usize, ok: bool) {
+    w.gets[g].done = true;
+    w.gets[g].ok = ok;
+    let reader = w.gets[g].reader;
+    w.readers[reader].busy = None;
+    if let Some(next) = w.readers[reader].queue.pop_front() {
+        w.at(10, Event::GetStart(next));
+    }
+}
+
+fn shard_arrive(ch: &mut Chooser, ctx: &mut Ctx, w: &mut World, g: usize, d: Delivered) -> bool {
+    if w.gets[g].done {
+        ctx.count("sim.late_arrival_after_completion");
+        return false;
+    }
+    let (s, reader) = (w.gets[g].stripe, w.gets[g].reader);
+    let (k, r, b) = (w.stripes[s].k, w.stripes[s].r, w.stripes[s].b);
+    // the stub's verification (README advice): checksum always; length / index only unless buggified off
+    if d.data.len() == b && d.checksum != checksum(d.is_rec, &d.data) {
+        ctx.count("fault.F6.rot_detected");
+        return false;
+    }
+    let count = if d.is_rec { r } else { k };
+    let torn = d.data.len() != b;
+    let misdirected = d.index_field != d.true_index;
+    if torn && w.knobs.verify_len {
+        ctx.count("fault.F7.torn_dropped_by_verification");
+        return false;
+    }
+    if misdirected {
+        let already = d.index_field < count && if d.is_rec { w.gets[g].given_r[d.index_field] } else { w.gets[g].given_o[d.index_field] };
+        // only structurally detectable damage is ever shown to the decoder unverified
+        if w.knobs.verify_index || !(d.index_field >= count || already) {
+            ctx.count("fault.F8.misdirected_dropped_by_verification");
+            return false;
+        }
+    }
+    // arrival order bookkeeping
+    let pos = if d.is_rec { k + d.true_index } else { d.true_index };
+    if pos < w.gets[g].last_pos {
+        w.gets[g].inversions += 1;
+    }
+    w.gets[g].last_pos = pos;
+    w.gets[g].raw.push(d.clone());
+
+    // R2 verdict for this delivery
+    let index = d.index_field;
+    let mut adm = Vec::new();
+    if index >= count {
+        adm.push(if d.is_rec { Error::InvalidRecoveryShardIndex { recovery_count: r, index } } else { Error::InvalidOriginalShardIndex { original_count: k, index } });
+    } else if (if d.is_rec { w.gets[g].given_r[index] } else { w.gets[g].given_o[index] }) {
+        adm.push(if d.is_rec { Error::DuplicateRecoveryShardIndex { index } } else { Error::DuplicateOriginalShardIndex { index } });
+    }
+    if d.data.len() != b {
+        adm.push(Error::DifferentShardSize { shard_bytes: b, got: d.data.len() });
+    }
+    let rd = &mut w.readers[reader];
+    ctx.cpu_mask = rd.m.mask;
+    ctx.poison_mode = rd.m.poison_mode;
+    let (kind, obj) = rd.obj.as_mut().unwrap();
+    let kind = *kind;
+    let failed_ever = w.gets[g].failed_round;
+    let res = ctx.guarded(true, || if d.is_rec { obj.add_recovery(index, &d.data) } else { obj.add_original(index, &d.data) });
+    let res = match res {
+        Ok(v) => v,
+        Err(msg) => return report_panic(ctx, &kind.name(), "add", &format!("add_{}_shard({index}, len {})", if d.is_rec { "recovery" } else { "original" }, d.data.len()), failed_ever, &msg),
+    };
+    ev!(ctx, "t={} GET {g}: {}{} arrives (index field {index}, {} bytes) -> {res:?}", w.now, if d.is_rec { 'R' } else { 'O' }, d.true_index, d.data.len());
+    ctx.hash.feed_u64(res.as_ref().err().map_or(0, err_code) + 16 * pos as u64);
+    if let Some(why) = judge(&res, &adm) {
+        return ctx.viol(&verdict_props("add", failed_ever), "verdict", format!("verdict/store-add/{}", res.as_ref().err().map_or("Ok", err_name)), format!("reader {reader} {}({k},{r},{b}).add_{}_shard({index}, {} bytes) {why}", kind.name(), if d.is_rec { "recovery" } else { "original" }, d.data.len()), true);
+    }
+    if res.is_err() {
+        w.gets[g].failed_round = true;
+        ctx.count(if torn { "fault.F7.torn_rejected" } else if index >= count { "fault.F8.misdirected_rejected" } else { "fault.F2.dup_rejected" });
+    } else {
+        if d.is_rec {
+            w.gets[g].given_r[index] = true;
+            w.gets[g].n_r += 1;
+        } else {
+            w.gets[g].given_o[index] = true;
+            w.gets[g].n_o += 1;
+        }
+        w.gets[g].adds.push(Add { is_rec: d.is_rec, index, data: d.data });
+    }
+    let have = w.gets[g].n_o + w.gets[g].n_r;
+    match w.gets[g].policy {
+        Policy::Asap if have >= k => try_decode(ch, ctx, w, g),
+        Policy::Eager => try_decode(ch, ctx, w, g),
+        Policy::Stragglers if have == k + r => try_decode(ch, ctx, w, g),
+        _ => false,
+    }
+}
+
+fn deadline(ch: &mut Chooser, ctx: &mut Ctx, w: &mut World, g: usize, attempt: u32) -> bool {
+    if w.gets[g].done || w.gets[g].attempts != attempt {
+        return false;
+    }
+    let k = w.stripes[w.gets[g].stripe].k;
+    let have = w.gets[g].n_o + w.gets[g].n_r;
+    if have >= k || w.gets[g].policy == Policy::Eager {
+        if try_decode(ch, ctx, w, g) {
+            return true;
+        }
+        if w.gets[g].done {
+            return false;
+        }
+    }
+    w.gets[g].attempts += 1;
+    if w.gets[g].attempts >= 4 {
+        ev!(ctx, "t={} GET {g} gives up with {have} of {k} shards", w.now);
+        ctx.count("sim.gets_unavailable");
+        // leave the decoder as it is: the next GET resets it (history carries over)
+        finish_get(w, g, false);
+        return false;
+    }
+    ctx.count("probe.get_retry_same_decoder");
+    request_shards(ctx, w, g);
+    false
+}
+
+/// Calls `decode` on the reader's object with whatever has been accepted. Returns `true` to stop the run.
+fn try_decode(ch: &mut Chooser, ctx: &mut Ctx, w: &mut World, g: usize) -> bool {
+    let (s, reader) = (w.gets[g].stripe, w.gets[g].reader);
+    let (k, r, b, high) = (w.stripes[s].k, w.stripes[s].r, w.stripes[s].b, w.stripes[s].high);
+    let (n_o, n_r) = (w.gets[g].n_o, w.gets[g].n_r);
+    let adm = if n_o + n_r < k { vec![Error::NotEnoughShards { original_count: k, original_received_count: n_o, recovery_received_count: n_r }] } else { vec![] };
+    let probe_seed = ch.seed64("probe.seed");
+    let given_o = w.gets[g].given_o.clone();
+    let rd = &mut w.readers[reader];
+    ctx.cpu_mask = rd.m.mask;
+    ctx.poison_mode = rd.m.poison_mode;
+    let (kind, obj) = rd.obj.as_mut().unwrap();
+    let kind = *kind;
+    let failed = w.gets[g].failed_round;
+    let out = ctx.guarded(true, || obj.decode().map(|res| probe_decoder_result(&res, k, b, &given_o, probe_seed)));
+    let out = match out {
+        Ok(v) => v,
+        Err(msg) => return report_panic(ctx, &kind.name(), "decode", &format!("decode() with {n_o}+{n_r} of {k}"), failed, &msg),
+    };
+    ev!(ctx, "t={} GET {g}: decode() with {n_o} original + {n_r} recovery of k={k} -> {:?}", w.now, out.as_ref().map(|p| p.as_ref().map(|m| m.len())));
+    ctx.hash.feed_u64(out.as_ref().err().map_or(0, err_code));
+    if let Some(why) = judge(&out, &adm) {
+        let mut props = verdict_props("decode", failed);
+        if adm.is_empty() {
+            props.push("C01");
+        }
+        return ctx.viol(&props, "verdict", format!("verdict/store-decode/{}", out.as_ref().err().map_or("Ok", err_name)), format!("reader {reader} {}({k},{r},{b}).decode() with {n_o} original + {n_r} recovery shards {why}", kind.name()), true);
+    }
+    let probed = match out {
+        Err(_) => {
+            w.gets[g].failed_round = true;
+            ctx.count("fault.F10.early_decode");
+            return false;
+        }
+        Ok(p) => p,
+    };
+    if lockstep_check(ctx, kind, "GET decode") {
+        return true;
+    }
+    rd.rounds += 1;
+    if rd.rounds > 1 {
+        ctx.count("probe.round_on_reused_object");
+    }
+    ctx.count("sim.gets_completed");
+    if n_o + n_r == k {
+        ctx.count("probe.decode_with_exactly_k");
+    } else {
+        ctx.count("probe.decode_with_surplus");
+    }
+    if n_o == 0 {
+        ctx.count("probe.all_originals_lost");
+    }
+    if n_o == k {
+        ctx.count("probe.no_original_lost");
+    }
+    if w.gets[g].attempts > 0 {
+        ctx.count("probe.decode_failed_then_succeeded_on_same_object");
+    }
+    if failed {
+        ctx.count("probe.round_after_failed_call");
+    }
+    let restored = match probed {
+        Ok(m) => m,
+        Err(why) => {
+            return ctx.viol(&["C12", "C11"], "result-contract", "dec-result/store".into(), format!("reader {reader} {}({k},{r},{b}) DecoderResult: {why}", kind.name()), true);
+        }
+    };
+    // safety: exactly the originals not delivered, byte for byte (C01, C11)
+    for (i, sh) in &restored {
+        if sh != &w.stripes[s].originals[*i] {
+            let mut props = vec!["C01", "C11"];
+            if rd.rounds > 1 {
+                props.push("C05");
+            }
+            if failed {
+                props.push("C07");
+            }
+            if ctx.viol(&props, "restores-original-bytes", "restore/store".into(), format!("GET {g} stripe {s} ({k},{r},{b}) reader {reader} {}: restored original {i} differs from what the client PUT ({n_o} originals + {n_r} recovery delivered, order {:?}..)", kind.name(), w.gets[g].adds.iter().take(10).map(|a| format!("{}{}", if a.is_rec { 'R' } else { 'O' }, a.index)).collect::<Vec<_>>()), false) {
+                return true;
+            }
+            break;
+        }
+    }
+    let adds = w.gets[g].adds.clone();
+    ctx.distinct(&[0xA2, kind.layer as u64, kind.engine as u64, u64::from(n_o == 0), u64::from(n_o == k), u64::from(n_o + n_r == k), w.gets[g].inversions.min(3), u64::from(failed), w.gets[g].attempts.min(2) as u64]);
+    if ctx.stats.samples.len() < 3 {
+        ctx.stats.samples.push(format!("GET stripe ({k},{r},{b}) {} rate on {} mask {:#x}: arrivals {:?}.. -> {} restored", if high { "high" } else { "low" }, kind.name(), rd.m.mask & 3, adds.iter().take(10).map(|a| format!("{}{}", if a.is_rec { 'R' } else { 'O' }, a.index)).collect::<Vec<_>>(), restored.len()));
+    }
+
+    // the same delivered set in other orders, on fresh decoders (C11)
+    let n_orders = 1 + ch.pick_usize("get.orders", 3);
+    for _ in 0..n_orders {
+        let mut v = adds.clone();
+        let which = ch.pick("get.order_kind", 4);
+        match which {
+            0 => v.sort_by_key(|a| (a.is_rec, a.index)),
+            1 => {
+                v.sort_by_key(|a| (a.is_rec, a.index));
+                v.reverse();
+            }
+            2 => v.sort_by_key(|a| (!a.is_rec, a.index)),
+            _ => {
+                let mut p = Prng::new(ch.seed64("get.shuffle"));
+                for i in (1..v.len()).rev() {
+                    v.swap(i, p.below(i as u64 + 1) as usize);
+                }
+            }
+        }
+        match ctx.shadow(|| fresh_decode(kind, k, r, b, &v)) {
+            Ok(Ok(Ok(f))) => {
+                ctx.count("c11.order_variants");
+                if f != restored && ctx.viol(&["C11"], "order-independence", format!("order/{which}"), format!("stripe ({k},{r},{b}) {}: the same {} delivered shards added in {} order restore different data than in arrival order", kind.name(), v.len(), ["ascending", "descending", "recovery-first", "shuffled"][which as usize]), false) {
+                    return true;
+                }
+            }
+            Ok(Ok(Err(e))) => {
+                if ctx.viol(&["C11", "C06"], "order-independence", "order/err".into(), format!("fresh decoder fails with {e:?} on a delivered set that decoded in arrival order"), false) {
+                    return true;
+                }
+            }
+            _ => {}
+        }
+    }
+    // a sufficient subset (exactly k of the delivered shards) must restore the same bytes (C11 surplus, C01)
+    if adds.len() > k && ch.chance("get.subset", 1, 2) {
+        let mut v = adds.clone();
+        let mut p = Prng::new(ch.seed64("get.subset_seed"));
+        while v.len() > k {
+            v.swap_remove(p.below(v.len() as u64) as usize);
+        }
+        if let Ok(Ok(Ok(f))) = ctx.shadow(|| fresh_decode(kind, k, r, b, &v)) {
+            ctx.count("c11.subset_variants");
+            let mut bad = false;
+            for (i, sh) in &f {
+                if sh != &w.stripes[s].originals[*i] {
+                    bad = true;
+                }
+            }
+            if bad && ctx.viol(&["C11", "C01"], "order-independence", "order/subset".into(), format!("stripe ({k},{r},{b}) {}: a sufficient subset of exactly {k} delivered shards restores wrong data", kind.name()), false) {
+                return true;
+            }
+        }
+    }
+    // a second reader of another kind / engine / CPU, fed the same deliveries (C03, C09, C14)
+    if ch.chance("get.second_reader", 2, 3) {
+        let m2 = Machine::gen(ch);
+        let kind2 = m2.kind_for(k, r, high);
+        ctx.cpu_mask = m2.mask;
+        let mask2 = m2.mask;
+        let res = {
+            reed_solomon_simd::verif::set_cpu_mask(mask2);
+            let r2 = std::panic::catch_unwind(std::panic::AssertUnwindSafe(|| fresh_decode(kind2, k, r, b, &adds)));
+            reed_solomon_simd::verif::set_cpu_mask(u32::MAX);
+            r2
+        };
+        if let Ok(Ok(Ok(f))) = res {
+            ctx.count("c03.cross_machine_gets");
+            if lockstep_check(ctx, kind2, "second reader") {
+                return true;
+            }
+            if f != restored {
+                let mut props = vec!["C03"];
+                if kind2.layer != kind.layer {
+                    props.push("C09");
+                }
+                if mask2 != rd.m.mask {
+                    props.push("C14");
+                }
+                if ctx.viol(&props, "cross-engine", format!("cross/store-decode/{}-{}", kind.engine.name(), kind2.engine.name()), format!("stripe ({k},{r},{b}): reader {} (mask {:#x}) and a second reader {} (mask {:#x}) restore different data from the same deliveries", kind.name(), rd.m.mask & 3, kind2.name(), mask2 & 3), false) {
+                    return true;
+                }
+            }
+        }
+        ctx.cpu_mask = u32::MAX;
+    }
+    // the one-shot function on what actually arrived (C10); also with the rejected deliveries included
+    if envelope::default_supported(k, r) && envelope::default_is_high(k, r) == high && ch.chance("get.oneshot", 1, 2) {
+        let orig: Vec<(usize, &[u8])> = adds.iter().filter(|a| !a.is_rec).map(|a| (a.index, &a.data[..])).collect();
+        let rec: Vec<(usize, &[u8])> = adds.iter().filter(|a| a.is_rec).map(|a| (a.index, &a.data[..])).collect();
+        if rec.is_empty() {
+            ctx.count("probe.oneshot_no_recovery_given");
+        }
+        match ctx.shadow(|| reed_solomon_simd::decode(k, r, orig, rec)) {
+            Ok(Ok(m)) => {
+                ctx.count("c10.oneshot_decode_compared");
+                let m: BTreeMap<usize, Vec<u8>> = m.into_iter().collect();
+                if m != restored && ctx.viol(&["C10", "C09"], "oneshot-equals-streaming", "oneshot/decode/bytes".into(), format!("decode({k},{r},..) on the delivered shards differs from the reader's streaming result"), false) {
+                    return true;
+                }
+            }
+            Ok(Err(e)) => {
+                if ctx.viol(&["C10", "C06"], "oneshot-equals-streaming", format!("oneshot/decode/{}", err_name(&e)), format!("decode({k},{r}, delivered shards) returned Err({e:?}) where the streaming decoder succeeds"), false) {
+                    return true;
+                }
+            }
+            Err(msg) => {
+                if report_panic(ctx, "decode()", "oneshot", "one-shot decode", false, &msg) {
+                    return true;
+                }
+            }
+        }
+        if failed {
+            // raw deliveries, rejected ones included: the streaming sequence fails, so one-shot must fail truthfully
+            let raw = &w.gets[g].raw;
+            let orig: Vec<(usize, &[u8])> = raw.iter().filter(|d| !d.is_rec).map(|d| (d.index_field, &d.data[..])).collect();
+            let rec: Vec<(usize, &[u8])> = raw.iter().filter(|d| d.is_rec).map(|d| (d.index_field, &d.data[..])).collect();
+            let o_meta: Vec<(usize, usize)> = orig.iter().map(|(i, d)| (*i, d.len())).collect();
+            let r_meta: Vec<(usize, usize)> = rec.iter().map(|(i, d)| (*i, d.len())).collect();
+            let adm = crate::oneshot::decode_adm(k, r, &o_meta, &r_meta);
+            if !adm.is_empty() {
+                match ctx.shadow(|| reed_solomon_simd::decode(k, r, orig, rec)) {
+                    Ok(Ok(_)) => {
+                        if ctx.viol(&["C10"], "oneshot-equals-streaming", format!("oneshot/decode/ok-where-streaming-fails/{}", if r_meta.is_empty() { "no-recovery-given" } else { "with-recovery" }), format!("decode({k},{r}, originals {o_meta:?}, recovery {r_meta:?}) returned Ok although the delivery contains rejected shards"), false) {
+                            return true;
+                        }
+                    }
+                    Ok(Err(e)) => {
+                        ctx.count("oneshot.errors_judged");
+                        if !adm.contains(&e) && ctx.viol(&["C10", "C06"], "verdict", format!("verdict/oneshot-decode/{}", err_name(&e)), format!("decode({k},{r}, originals {o_meta:?}, recovery {r_meta:?}) returned Err({e:?}); admissible: {adm:?}"), false) {
+                            return true;
+                        }
+                    }
+                    Err(msg) => {
+                        if report_panic(ctx, "decode()", "oneshot", "one-shot decode", false, &msg) {
+                            return true;
+                        }
+                    }
+                }
+            }
+        }
+    }
+    finish_get(w, g, true);
+    false
+}
+
+// ======================================================================
+// Corner stripes: the envelope really encodes and decodes (C08, C01, C02)
+
+pub fn run_corner(ch: &mut Chooser, ctx: &mut Ctx) {
+    let corners = envelope::corners();
+    let (ck, cr) = corners[ch.pick_usize("corner.which", corners.len())];
+    // a supported neighbour of the corner (inside the envelope)
+    let (k, r) = match ch.pick("corner.nb", 4) {
+        0 => (ck, cr),
+        1 => (ck.saturating_sub(1).max(1), cr),
+        2 => (ck, cr.saturating_sub(1).max(1)),
+        _ => (ck.saturating_sub(1).max(1), cr.saturating_sub(1).max(1)),
+    };
+    if !envelope::default_supported(k, r) {
+        return;
+    }
+    let fam_choices: Vec<Family> = [Family::Default, Family::High, Family::Low].into_iter().filter(|f| envelope::supported(*f, k, r)).collect();
+    let fam = fam_choices[ch.pick_usize("corner.fam", fam_choices.len())];
+    let high = envelope::effective_high(fam, k, r);
+    let b = [2usize, 2, 64, 66][ch.pick_usize("corner.bytes", 4)];
+    let engine = [EngineKind::Avx2, EngineKind::Default, EngineKind::Ssse3, EngineKind::NoSimd][ch.pick_usize("corner.engine", 4)];
+    let engine = if engine.available() { engine } else { EngineKind::NoSimd };
+    let layer = match fam {
+        Family::Default => if ch.chance("corner.rs", 1, 2) { Layer::Rs } else { Layer::Default },
+        Family::High => Layer::High,
+        Family::Low => Layer::Low,
+    };
+    let kind = Kind { layer, engine: if layer == Layer::Rs { EngineKind::Default } else { engine } };
+    ctx.arm_poison(ch.seed64("poison.seed"), 1);
+    ev!(ctx, "corner stripe: {} ({k},{r},{b}) {} rate", kind.name(), if high { "high" } else { "low" });
+    ctx.distinct(&[0xC0, k as u64, r as u64, b as u64, kind.layer as u64]);
+    let data_seed = ch.seed64("data.seed");
+    let originals: Vec<Vec<u8>> = (0..k).map(|i| gen_shard(data_seed, 0, i, b)).collect();
+    let enc = ctx.guarded(true, || -> Result<Vec<Vec<u8>>, Error> {
+        let mut e = enc_new(kind, k, r, b, None)?;
+        for o in &originals {
+            e.add(o)?;
+        }
+        let res = e.encode()?;
+        Ok(res.recovery_iter().map(<[u8]>::to_vec).collect())
+    });
+    let recovery = match enc {
+        Ok(Ok(v)) => v,
+        Ok(Err(e)) => {
+            ctx.viol(&["C08", "C06", "C01"], "verdict", format!("verdict/corner-encode/{}", err_name(&e)), format!("{}({k},{r},{b}) inside the envelope failed to encode: {e:?}", kind.name()), true);
+            return;
+        }
+        Err(msg) => {
+            ctx.viol(&["C08", "C06", "C01"], "no-panic", format!("panic/corner-encode/{}", panic_sig(&msg)), format!("{}({k},{r},{b}) inside the envelope panicked while encoding: {msg}", kind.name()), true);
+            return;
+        }
+    };
+    ctx.count("corner.encodes");
+    let (mism, compared) = check_r1(high, k, r, &originals, &recovery, data_seed);
+    ctx.count_n("r1.symbols_compared", compared as u64);
+    if let Some(why) = mism {
+        if ctx.viol(&["C02", "C08"], "r1-code", "r1/corner".into(), format!("{}({k},{r},{b}): {why}", kind.name()), false) {
+            return;
+        }
+    }
+    // loss pattern: maximal loss in several shapes
+    let total = k + r;
+    let mut keep: Vec<(bool, usize)> = Vec::with_capacity(k);
+    match ch.pick("corner.pattern", 5) {
+        0 => {
+            // as many recovery shards as possible, then originals from the end
+            for j in 0..r.min(k) {
+                keep.push((true, j));
+            }
+            let mut i = k;
+            while keep.len() < k {
+                i -= 1;
+                keep.push((false, i));
+            }
+        }
+        1 => {
+            // all originals (nothing to restore) plus some recovery
+            for i in 0..k {
+                keep.push((false, i));
+            }
+            keep.push((true, r - 1));
+        }
+        2 => {
+            // exactly k survivors chosen uniformly
+            let mut all: Vec<(bool, usize)> = (0..k).map(|i| (false, i)).chain((0..r).map(|j| (true, j))).collect();
+            let mut p = Prng::new(ch.seed64("corner.lossseed"));
+            for _ in 0..total - k {
+                let at = p.below(all.len() as u64) as usize;
+                all.swap_remove(at);
+            }
+            keep = all;
+        }
+        3 => {
+            // lose the first chunk of originals, take recovery from the end
+            let lose = r.min(k);
+            for i in lose..k {
+                keep.push((false, i));
+            }
+            for j in (r - lose..r).rev() {
+                keep.push((true, j));
+            }
+        }
+        _ => {
+            // strided loss
+            let mut lost = 0;
+            for i in 0..k {
+                if i % 2 == 0 && lost < r {
+                    lost += 1;
+                } else {
+                    keep.push((false, i));
+                }
+            }
+            for j in 0..lost {
+                keep.push((true, j));
+            }
+        }
+    }
+    let adds: Vec<Add> = keep.iter().map(|(is_rec, i)| Add { is_rec: *is_rec, index: *i, data: if *is_rec { recovery[*i].clone() } else { originals[*i].clone() } }).collect();
+    let dec = ctx.guarded(true, || fresh_decode(kind, k, r, b, &adds));
+    match dec {
+        Ok(Ok(Ok(m))) => {
+            ctx.count("corner.decodes");
+            let given: BTreeSet<usize> = keep.iter().filter(|(rec, _)| !*rec).map(|(_, i)| *i).collect();
+            let want: Vec<usize> = (0..k).filter(|i| !given.contains(i)).collect();
+            let got: Vec<usize> = m.keys().copied().collect();
+            if got != want {
+                ctx.viol(&["C01", "C08", "C12"], "restores-original-bytes", "restore/corner-set".into(), format!("{}({k},{r},{b}): restored {} shards, expected the {} missing originals", kind.name(), got.len(), want.len()), false);
+                return;
+            }
+            for (i, sh) in &m {
+                if sh != &originals[*i] {
+                    ctx.viol(&["C01", "C08"], "restores-original-bytes", "restore/corner".into(), format!("{}({k},{r},{b}): restored original {i} differs", kind.name()), false);
+                    return;
+                }
+            }
+        }
+        Ok(Ok(Err(e))) => {
+            ctx.viol(&["C01", "C08", "C06"], "verdict", format!("verdict/corner-decode/{}", err_name(&e)), format!("{}({k},{r},{b}) inside the envelope failed to decode with {} shards: {e:?}", kind.name(), adds.len()), false);
+        }
+        Ok(Err(why)) => {
+            ctx.viol(&["C01", "C08", "C06"], "verdict", "verdict/corner-decode/setup".into(), format!("{}({k},{r},{b}): {why}", kind.name()), false);
+        }
+        Err(msg) => {
+            ctx.viol(&["C08", "C06", "C01"], "no-panic", format!("panic/corner-decode/{}", panic_sig(&msg)), format!("{}({k},{r},{b}) inside the envelope panicked while decoding: {msg}", kind.name()), true);
+        }
+    }
+}
